@@ -173,14 +173,17 @@ def parse_template(path: str):
                     blk["region_sig"], i = multiline(i)
                 elif t.startswith("//@ region-tail <<"):
                     blk["region_tail"], i = multiline(i)
-                elif t.startswith("//@ region `"):
+                elif t.startswith("//@ region `") or t.startswith("//@ region ^"):
                     # X16 region extraction: only the block statement that starts on the line containing the anchor
                     # (through its matching brace) is taken from the function; the template supplies a signature whose
                     # parameters are the region's free variables (region-sig) and the statements after it (region-tail)
-                    mr = re.match(r"//@ region `(.*?)`(?: \.\.(;?) `(.*)`)?\s*$", t)
-                    blk["region"] = mr.group(1)
-                    blk["region_to"] = mr.group(3)   # optional: the block statement that ends the region starts at this anchor
-                    blk["region_to_stmt"] = mr.group(2) == ";"   # `..;`: the region ends with the plain statement that contains the anchor
+                    # `^` as the start anchor: the region starts with the first statement of the body;
+                    # `..< `b``: the region ends just before the line that contains b (b itself is not part of it)
+                    mr = re.match(r"//@ region (?:`(.*?)`|(\^))(?: \.\.([;<]?) `(.*)`)?\s*$", t)
+                    blk["region"] = mr.group(1) if mr.group(1) is not None else "^"
+                    blk["region_to"] = mr.group(4)   # optional: the block statement that ends the region starts at this anchor
+                    blk["region_to_stmt"] = mr.group(3) == ";"   # `..;`: the region ends with the plain statement that contains the anchor
+                    blk["region_to_excl"] = mr.group(3) == "<"
                 elif t.startswith("//@ prefix "):
                     blk["prefix"].append(lines[i].split("//@ prefix ", 1)[1])
                 elif t == "//@ external-body":
@@ -268,16 +271,24 @@ def build_item(repo: str, blk: dict, report: dict):
     body = text[b_open:b_close + 1]
     if blk.get("region"):
         bm = mask_source(body)
-        k = body.find(blk["region"])
-        if k < 0:
-            raise LostAnchor(f"{key}: region anchor `{blk['region']}` not found")
-        ls = body.rfind("\n", 0, k) + 1
+        if blk["region"] == "^":
+            k = 1          # just after the opening brace of the body
+            ls = 1
+        else:
+            k = body.find(blk["region"])
+            if k < 0:
+                raise LostAnchor(f"{key}: region anchor `{blk['region']}` not found")
+            ls = body.rfind("\n", 0, k) + 1
         k2 = k
         if blk.get("region_to"):
             k2 = body.find(blk["region_to"], k)
             if k2 < 0:
                 raise LostAnchor(f"{key}: region end anchor `{blk['region_to']}` not found")
-        if blk.get("region_to_stmt"):
+        if blk.get("region_to_excl"):
+            cb = body.rfind("\n", 0, k2)
+            if cb < ls:
+                cb = ls - 1      # nothing precedes the end anchor: the region is empty
+        elif blk.get("region_to_stmt"):
             depth, cb = 0, None
             for q in range(k2, len(bm)):
                 ch = bm[q]
